@@ -1,6 +1,660 @@
-use crate::{Args, Report};
-pub fn replace(_args: &Args) -> Report { Report::new("todo", "".into(), "".into()) }
-pub fn cfgprod(_args: &Args) -> Report { Report::new("todo", "".into(), "".into()) }
-pub fn meta(_args: &Args) -> Report { Report::new("todo", "".into(), "".into()) }
-pub fn purity(_args: &Args) -> Report { Report::new("todo", "".into(), "".into()) }
-pub fn faildepth(_args: &Args) -> Report { Report::new("todo", "".into(), "".into()) }
+//! B5 replace (C12), B6 configuration product (C13), B8 metadata (C20), purity differential
+//! (C17), fail-link depth and per-byte work counters through hooks H1/H3 (C19).
+use crate::ac::wide_lists;
+use crate::eng::{build, cv, mk_real, Built, Cfg, Engine, StartKindC};
+use crate::gen::{self, enc_pats, hex, show, show_pats, Rng};
+use crate::oracle::{self, Kind, M};
+use crate::sem::family;
+use crate::{par_for, Args, Fail, Report};
+use aho_corasick::automaton::{Automaton, OverlappingState};
+use aho_corasick::{AhoCorasick, AhoCorasickBuilder, AhoCorasickKind, Anchored, Input, StartKind};
+use std::panic::{catch_unwind, AssertUnwindSafe};
+
+// ------------------------------------------------------------------------------------------
+// C12 replace_all
+// ------------------------------------------------------------------------------------------
+fn is_cb(h: &str, i: usize) -> bool {
+    h.is_char_boundary(i)
+}
+
+pub fn replace(args: &Args) -> Report {
+    let thorough = args.thorough();
+    let seed = args.num("seed", 0);
+    let rep = Report::new(
+        "replace",
+        format!("byte patterns drawn from {{'', 'a', 'é', '€', C3, A9, E2 82, 82 AC, AC, 'aé', '€a'}} ({} lists of 1..3) x 3 match kinds x {{top-level auto, low-level noncontiguous, contiguous, DFA}}; haystacks: valid UTF-8 strings over {{a, é, €, 😀}} up to {} chars; replacement tables of valid strings; closure variants stopping after 0..3 matches",
+                if thorough { "all 1463" } else { "sampled" }, if thorough { 5 } else { 4 }),
+        "case = (pattern list, kind, engine, haystack, API variant); non-trivial = some pattern occurs".into(),
+    );
+    let atoms: Vec<Vec<u8>> = vec![
+        vec![], b"a".to_vec(), "é".as_bytes().to_vec(), "€".as_bytes().to_vec(), vec![0xC3], vec![0xA9], vec![0xE2, 0x82], vec![0x82, 0xAC], vec![0xAC],
+        "aé".as_bytes().to_vec(), "€a".as_bytes().to_vec(),
+    ];
+    let lists = gen::lists(&atoms, 3, if thorough { 1 } else { 7 }, seed);
+    let chars = ["a", "é", "€", "😀"];
+    let mut hays: Vec<String> = vec![String::new()];
+    let maxc = if thorough { 5 } else { 4 };
+    let mut frontier = vec![String::new()];
+    for _ in 0..maxc {
+        let mut next = vec![];
+        for f in &frontier {
+            for c in &chars {
+                let mut s = f.clone();
+                s.push_str(c);
+                next.push(s);
+            }
+        }
+        hays.extend(next.iter().cloned());
+        frontier = next;
+    }
+    par_for(&lists, |pats| {
+        let repl_s: Vec<String> = (0..pats.len()).map(|i| format!("<{}ü>", i)).collect();
+        let repl_b: Vec<Vec<u8>> = repl_s.iter().map(|s| s.as_bytes().to_vec()).collect();
+        for kind in [Kind::LF, Kind::LL, Kind::Std] {
+            for engine in [Engine::TopAuto, Engine::LowNonContig, Engine::LowContig, Engine::LowDfa] {
+                let cfg = Cfg { engine, sk: StartKindC::U, mk: kind, ci: false, pre: true, dd: None, bc: true };
+                let b = match build(&cfg, pats) {
+                    Ok(b) => b,
+                    Err(_) => continue,
+                };
+                for h in &hays {
+                    let hb = h.as_bytes();
+                    let ms = oracle::iter(pats, false, kind, hb, 0, hb.len(), false);
+                    // bytes
+                    let want_b = oracle::splice(hb, &ms, &repl_b);
+                    let got_b = catch_unwind(AssertUnwindSafe(|| match &b {
+                        Built::Top(t) => t.try_replace_all_bytes(hb, &repl_b).map_err(|e| e.to_string()),
+                        Built::NC(a) => a.try_replace_all_bytes(hb, &repl_b).map_err(|e| e.to_string()),
+                        Built::C(a) => a.try_replace_all_bytes(hb, &repl_b).map_err(|e| e.to_string()),
+                        Built::D(a) => a.try_replace_all_bytes(hb, &repl_b).map_err(|e| e.to_string()),
+                    }));
+                    rep.case(!ms.is_empty());
+                    if !matches!(&got_b, Ok(Ok(g)) if *g == want_b) {
+                        rfail(&rep, "replace_all_bytes", &cfg, pats, hb, format!("expected '{}', got {:?}", show(&want_b), got_b.map(|r| r.map(|v| show(&v)))));
+                    }
+                    // str: matches whose bounds are not char boundaries are skipped
+                    let ms_s: Vec<M> = ms.iter().cloned().filter(|m| is_cb(h, m.start) && is_cb(h, m.end)).collect();
+                    let want_s = oracle::splice(hb, &ms_s, &repl_b);
+                    let got_s = catch_unwind(AssertUnwindSafe(|| match &b {
+                        Built::Top(t) => t.try_replace_all(h, &repl_s).map_err(|e| e.to_string()),
+                        Built::NC(a) => a.try_replace_all(h, &repl_s).map_err(|e| e.to_string()),
+                        Built::C(a) => a.try_replace_all(h, &repl_s).map_err(|e| e.to_string()),
+                        Built::D(a) => a.try_replace_all(h, &repl_s).map_err(|e| e.to_string()),
+                    }));
+                    rep.case(!ms.is_empty());
+                    if !matches!(&got_s, Ok(Ok(g)) if g.as_bytes() == &want_s[..]) {
+                        rfail(&rep, "replace_all(&str)", &cfg, pats, hb, format!("expected '{}', got {:?}", show(&want_s), got_s.map(|r| r.map(|v| show(v.as_bytes())))));
+                    }
+                    // closure variants with early stop after k matches: the remainder is copied verbatim
+                    for stop in 0..=3usize {
+                        let mut want = vec![];
+                        let mut last = 0;
+                        for (i, m) in ms.iter().enumerate() {
+                            want.extend_from_slice(&hb[last..m.start]);
+                            last = m.end;
+                            want.extend_from_slice(b"{");
+                            want.extend_from_slice(&hb[m.start..m.end]);
+                            want.extend_from_slice(b"}");
+                            if i + 1 > stop {
+                                break;
+                            }
+                        }
+                        want.extend_from_slice(&hb[last..]);
+                        let mut seen: Vec<M> = vec![];
+                        let got = catch_unwind(AssertUnwindSafe(|| {
+                            let mut dst = vec![];
+                            let mut n = 0;
+                            let f = |m: &aho_corasick::Match, bytes: &[u8], dst: &mut Vec<u8>| {
+                                seen.push(cv(*m));
+                                dst.push(b'{');
+                                dst.extend_from_slice(bytes);
+                                dst.push(b'}');
+                                n += 1;
+                                n <= stop
+                            };
+                            match &b {
+                                Built::Top(t) => t.try_replace_all_with_bytes(hb, &mut dst, f).map_err(|e| e.to_string()),
+                                Built::NC(a) => a.try_replace_all_with_bytes(hb, &mut dst, f).map_err(|e| e.to_string()),
+                                Built::C(a) => a.try_replace_all_with_bytes(hb, &mut dst, f).map_err(|e| e.to_string()),
+                                Built::D(a) => a.try_replace_all_with_bytes(hb, &mut dst, f).map_err(|e| e.to_string()),
+                            }
+                            .map(|_| dst)
+                        }));
+                        rep.case(!ms.is_empty());
+                        if !matches!(&got, Ok(Ok(g)) if *g == want) {
+                            rfail(&rep, &format!("replace_all_with_bytes(stop after {})", stop + 1), &cfg, pats, hb, format!("expected '{}', got {:?}", show(&want), got.map(|r| r.map(|v| show(&v)))));
+                        }
+                    }
+                    // &str closure variant
+                    let got = catch_unwind(AssertUnwindSafe(|| {
+                        let mut dst = String::new();
+                        let f = |m: &aho_corasick::Match, s: &str, dst: &mut String| {
+                            dst.push('{');
+                            dst.push_str(s);
+                            dst.push('}');
+                            let _ = m;
+                            true
+                        };
+                        match &b {
+                            Built::Top(t) => t.try_replace_all_with(h, &mut dst, f).map_err(|e| e.to_string()),
+                            Built::NC(a) => a.try_replace_all_with(h, &mut dst, f).map_err(|e| e.to_string()),
+                            Built::C(a) => a.try_replace_all_with(h, &mut dst, f).map_err(|e| e.to_string()),
+                            Built::D(a) => a.try_replace_all_with(h, &mut dst, f).map_err(|e| e.to_string()),
+                        }
+                        .map(|_| dst)
+                    }));
+                    let mut want = vec![];
+                    let mut last = 0;
+                    for m in &ms_s {
+                        want.extend_from_slice(&hb[last..m.start]);
+                        want.push(b'{');
+                        want.extend_from_slice(&hb[m.start..m.end]);
+                        want.push(b'}');
+                        last = m.end;
+                    }
+                    want.extend_from_slice(&hb[last..]);
+                    rep.case(!ms.is_empty());
+                    if !matches!(&got, Ok(Ok(g)) if g.as_bytes() == &want[..]) {
+                        rfail(&rep, "replace_all_with(&str)", &cfg, pats, hb, format!("expected '{}', got {:?}", show(&want), got.map(|r| r.map(|v| show(v.as_bytes())))));
+                    }
+                    if rep.full() {
+                        return;
+                    }
+                }
+            }
+        }
+    });
+    rep.sample(format!("e.g. patterns {} on '{}'", show_pats(&lists[lists.len() / 3]), hays[37]));
+    rep
+}
+
+fn rfail(rep: &Report, what: &str, cfg: &Cfg, pats: &[Vec<u8>], h: &[u8], detail: String) {
+    rep.fail(Fail {
+        key: format!("replace:{}:{}:pats={}:hay={}", what, cfg.mk.name(), show_pats(pats), show(h)),
+        what: format!("{} [{}] patterns {} haystack '{}': {}", what, cfg.encode(), show_pats(pats), show(h), detail),
+        argv: vec!["replace".into(), "--note".into(), format!("{}|{}|x{}", cfg.encode(), enc_pats(pats), hex(h))],
+    });
+}
+
+// ------------------------------------------------------------------------------------------
+// C13 configuration product
+// ------------------------------------------------------------------------------------------
+#[derive(Clone, Copy, Debug, PartialEq, Eq)]
+enum Outcome {
+    Ok,
+    Err,
+    Panic,
+    LatePanic,
+}
+
+const APIS: [&str; 17] = [
+    "try_find", "find", "is_match", "try_find_iter", "find_iter", "try_find_overlapping", "find_overlapping", "try_find_overlapping_iter",
+    "find_overlapping_iter", "try_stream_find_iter", "stream_find_iter", "try_stream_replace_all", "try_stream_replace_all_with",
+    "try_replace_all_bytes", "replace_all_bytes", "try_replace_all", "replace_all",
+];
+
+fn classify<T>(r: std::thread::Result<Result<T, ()>>) -> Outcome {
+    match r {
+        Ok(Ok(_)) => Outcome::Ok,
+        Ok(Err(_)) => Outcome::Err,
+        Err(_) => Outcome::Panic,
+    }
+}
+
+fn call_top(ac: &AhoCorasick, api: &str, hay: &[u8], anch: bool, npat: usize) -> Outcome {
+    let inp = || Input::new(hay).anchored(if anch { Anchored::Yes } else { Anchored::No });
+    let repl: Vec<Vec<u8>> = (0..npat).map(|_| b"r".to_vec()).collect();
+    let repl_s: Vec<String> = (0..npat).map(|_| "r".to_string()).collect();
+    let hs = String::from_utf8_lossy(hay).to_string();
+    // an iterator that was constructed must never fail later: drain it under its own catch
+    macro_rules! drain {
+        ($mk:expr) => {{
+            match catch_unwind(AssertUnwindSafe(|| $mk)) {
+                Err(_) => Outcome::Panic,
+                Ok(Err(_)) => Outcome::Err,
+                Ok(Ok(it)) => match catch_unwind(AssertUnwindSafe(move || it.count())) {
+                    Ok(_) => Outcome::Ok,
+                    Err(_) => Outcome::LatePanic,
+                },
+            }
+        }};
+    }
+    match api {
+        "try_find" => classify(catch_unwind(AssertUnwindSafe(|| ac.try_find(inp()).map_err(|_| ())))),
+        "find" => classify(catch_unwind(AssertUnwindSafe(|| Ok::<_, ()>(ac.find(inp()))))),
+        "is_match" => classify(catch_unwind(AssertUnwindSafe(|| Ok::<_, ()>(ac.is_match(inp()))))),
+        "try_find_iter" => drain!(ac.try_find_iter(inp()).map_err(|_| ())),
+        "find_iter" => drain!(Ok::<_, ()>(ac.find_iter(inp()))),
+        "try_find_overlapping" => classify(catch_unwind(AssertUnwindSafe(|| {
+            let mut st = OverlappingState::start();
+            let mut n = 0;
+            loop {
+                ac.try_find_overlapping(inp(), &mut st).map_err(|_| ())?;
+                if st.get_match().is_none() || n > 64 {
+                    break;
+                }
+                n += 1;
+            }
+            Ok::<_, ()>(())
+        }))),
+        "find_overlapping" => classify(catch_unwind(AssertUnwindSafe(|| {
+            let mut st = OverlappingState::start();
+            ac.find_overlapping(inp(), &mut st);
+            Ok::<_, ()>(())
+        }))),
+        "try_find_overlapping_iter" => drain!(ac.try_find_overlapping_iter(inp()).map_err(|_| ())),
+        "find_overlapping_iter" => drain!(Ok::<_, ()>(ac.find_overlapping_iter(inp()))),
+        "try_stream_find_iter" => drain!(ac.try_stream_find_iter(hay).map_err(|_| ())),
+        "stream_find_iter" => drain!(Ok::<_, ()>(ac.stream_find_iter(hay))),
+        "try_stream_replace_all" => classify(catch_unwind(AssertUnwindSafe(|| {
+            let mut out = vec![];
+            ac.try_stream_replace_all(hay, &mut out, &repl).map_err(|_| ())
+        }))),
+        "try_stream_replace_all_with" => classify(catch_unwind(AssertUnwindSafe(|| {
+            let mut out = vec![];
+            ac.try_stream_replace_all_with(hay, &mut out, |_, _, _| Ok(())).map_err(|_| ())
+        }))),
+        "try_replace_all_bytes" => classify(catch_unwind(AssertUnwindSafe(|| ac.try_replace_all_bytes(hay, &repl).map_err(|_| ())))),
+        "replace_all_bytes" => classify(catch_unwind(AssertUnwindSafe(|| Ok::<_, ()>(ac.replace_all_bytes(hay, &repl))))),
+        "try_replace_all" => classify(catch_unwind(AssertUnwindSafe(|| ac.try_replace_all(&hs, &repl_s).map_err(|_| ())))),
+        "replace_all" => classify(catch_unwind(AssertUnwindSafe(|| Ok::<_, ()>(ac.replace_all(&hs, &repl_s))))),
+        x => panic!("api {}", x),
+    }
+}
+
+/// the four-clause definition of the statement
+fn rejected(api: &str, mk: Kind, sk: StartKindC, anch: bool, has_empty: bool) -> bool {
+    let overlapping = api.contains("overlapping");
+    let stream = api.contains("stream");
+    let uses_input = !(stream || api.contains("replace"));
+    let want_anch = uses_input && anch;
+    (!sk.supports(want_anch))
+        || ((overlapping || stream) && mk != Kind::Std)
+        || (api.contains("overlapping_iter") && want_anch)
+        || (stream && has_empty)
+}
+
+pub fn cfgprod(args: &Args) -> Report {
+    let thorough = args.thorough();
+    let rep = Report::new(
+        "cfgprod",
+        "the full product match kind (3) x start kind (3) x requested anchoring (2) x engine kind (auto + 3 explicit) x 17 top-level search APIs x {with, without} an empty pattern, on several pattern lists and haystacks each (exhaustive over configurations)".into(),
+        "case = (configuration, API, pattern list, haystack): outcome class Ok / Err / panic must equal the four-clause rejection rule; fallible APIs never panic, infallible ones never return when rejected, a constructed iterator never panics while drained".into(),
+    );
+    let lists: Vec<Vec<Vec<u8>>> = vec![
+        vec![b"a".to_vec()],
+        vec![b"ab".to_vec(), b"b".to_vec(), b"abc".to_vec()],
+        vec![b"".to_vec()],
+        vec![b"a".to_vec(), b"".to_vec()],
+        vec![b"bc".to_vec(), b"".to_vec(), b"abcd".to_vec()],
+        (0..120u8).map(|i| vec![b'a' + i % 26, b'0' + i % 10, i]).collect(),
+    ];
+    let hays: Vec<&[u8]> = if thorough { vec![b"", b"a", b"abcd", b"xxabcxx", b"zzzzzz", b"abababab"] } else { vec![b"", b"abcd", b"zzab"] };
+    let mut items = vec![];
+    for mk in [Kind::Std, Kind::LF, Kind::LL] {
+        for sk in [StartKindC::U, StartKindC::A, StartKindC::B] {
+            for engine in [Engine::TopAuto, Engine::TopNonContig, Engine::TopContig, Engine::TopDfa] {
+                for l in &lists {
+                    items.push((mk, sk, engine, l.clone()));
+                }
+            }
+        }
+    }
+    par_for(&items, |(mk, sk, engine, pats)| {
+        let cfg = Cfg { engine: *engine, sk: *sk, mk: *mk, ci: false, pre: true, dd: None, bc: true };
+        let b = match build(&cfg, pats) {
+            Ok(Built::Top(t)) => t,
+            _ => {
+                rep.fail(Fail { key: format!("cfgprod:build:{}", cfg.encode()), what: format!("build failed for {}", cfg.encode()), argv: vec![] });
+                return;
+            }
+        };
+        let has_empty = pats.iter().any(|p| p.is_empty());
+        for api in APIS {
+            for anch in [false, true] {
+                for hay in &hays {
+                    let got = call_top(&b, api, hay, anch, pats.len());
+                    let rej = rejected(api, *mk, *sk, anch, has_empty);
+                    let fallible = api.starts_with("try_");
+                    let want = if !rej { Outcome::Ok } else if fallible { Outcome::Err } else { Outcome::Panic };
+                    rep.case(rej);
+                    if got != want {
+                        rep.fail(Fail {
+                            key: format!("cfgprod:{}:{}:{:?}:anch={}:{:?}:empty={}", api, mk.name(), sk, *&anch as u8, engine, has_empty as u8),
+                            what: format!("{} on match kind {} start kind {:?} requested anchored={} engine {:?} patterns {} haystack '{}': expected {:?}, got {:?}", api, mk.name(), sk, anch, engine, show_pats(&pats[..pats.len().min(4)]), show(hay), want, got),
+                            argv: vec!["cfgprod".into()],
+                        });
+                    }
+                }
+            }
+        }
+    });
+    rep.sample("e.g. is_match with Anchored::Yes on a StartKind::Unanchored searcher must panic for every engine kind".into());
+    rep
+}
+
+// ------------------------------------------------------------------------------------------
+// C20 metadata / building
+// ------------------------------------------------------------------------------------------
+pub fn meta(args: &Args) -> Report {
+    let thorough = args.thorough();
+    let seed = args.num("seed", 0);
+    let rep = Report::new(
+        "meta",
+        format!("shape families: no patterns, only empty patterns, duplicates, all 256 byte values, states with >127 transitions, a^k b, nested suffixes, 300-byte patterns, 101/120/{} patterns, random lists; x 3 match kinds x 3 start kinds x {{auto, noncontiguous, contiguous, DFA}} x ci x prefilter x byte classes x dense depth {{default,0,1000}}", if thorough { 5000 } else { 1200 }),
+        "case = (pattern collection, option combination): build must not panic, kind() is the requested one, patterns_len/pattern_len/min/max/match_kind/start_kind mirror the input, pattern ids in matches are input positions".into(),
+    );
+    let mut lists = wide_lists(thorough, seed);
+    lists.push(vec![]);
+    lists.push(vec![vec![]]);
+    lists.push(vec![vec![], vec![], vec![]]);
+    lists.push(vec![b"dup".to_vec(), b"dup".to_vec(), b"du".to_vec(), b"dup".to_vec()]);
+    lists.push((0..101u16).map(|i| format!("p{}q", i).into_bytes()).collect());
+    let big = if thorough { 5000 } else { 1200 };
+    lists.push((0..big as u32).map(|i| format!("{:x}-{}", i.wrapping_mul(2654435761), i).into_bytes()).collect());
+    lists.extend(family("small", false, seed).lists.into_iter().step_by(5));
+    par_for(&lists, |pats| {
+        let mut combos = vec![];
+        for mk in [Kind::Std, Kind::LF, Kind::LL] {
+            for sk in [StartKindC::U, StartKindC::A, StartKindC::B] {
+                for kind in [None, Some(AhoCorasickKind::NoncontiguousNFA), Some(AhoCorasickKind::ContiguousNFA), Some(AhoCorasickKind::DFA)] {
+                    combos.push((mk, sk, kind));
+                }
+            }
+        }
+        for (ci_idx, (mk, sk, kind)) in combos.iter().enumerate() {
+            if pats.len() > 1000 && (kind == &Some(AhoCorasickKind::DFA) && !thorough) && ci_idx % 3 != 0 {
+                continue;
+            }
+            for opt in 0..(if pats.len() > 300 { 2 } else { 6 }) {
+                let (ci, pre, bc, dd) = match opt {
+                    0 => (false, true, true, None),
+                    1 => (true, false, false, Some(0)),
+                    2 => (false, false, true, Some(1000)),
+                    3 => (true, true, true, Some(1)),
+                    4 => (false, true, false, Some(3)),
+                    _ => (true, false, true, None),
+                };
+                let r = catch_unwind(AssertUnwindSafe(|| {
+                    let mut b = AhoCorasickBuilder::new();
+                    b.match_kind(mk_real(*mk)).start_kind(sk.real()).kind(*kind).ascii_case_insensitive(ci).prefilter(pre).byte_classes(bc);
+                    if let Some(d) = dd {
+                        b.dense_depth(d);
+                    }
+                    b.build(pats)
+                }));
+                rep.case(!pats.is_empty());
+                let desc = format!("{} patterns (first {}) mk={} sk={:?} kind={:?} ci={} pre={} bc={} dd={:?}", pats.len(), show_pats(&pats[..pats.len().min(3)]), mk.name(), sk, kind, ci, pre, bc, dd);
+                let key = format!("meta:{}:{}:{:?}:{:?}:{}", pats.len(), show_pats(&pats[..pats.len().min(3)]), mk.name(), kind, opt);
+                let ac = match r {
+                    Err(_) => {
+                        rep.fail(Fail { key, what: format!("build panicked: {}", desc), argv: vec!["meta".into()] });
+                        continue;
+                    }
+                    Ok(Err(e)) => {
+                        rep.fail(Fail { key, what: format!("build failed within documented limits: {}: {}", desc, e), argv: vec!["meta".into()] });
+                        continue;
+                    }
+                    Ok(Ok(ac)) => ac,
+                };
+                let mut bad = vec![];
+                if let Some(k) = kind {
+                    if ac.kind() != *k {
+                        bad.push(format!("kind() = {:?}", ac.kind()));
+                    }
+                } else {
+                    // automatic: DFA only if start kind != Both and <= 100 patterns
+                    if ac.kind() == AhoCorasickKind::DFA && (*sk == StartKindC::B || pats.len() > 100) {
+                        bad.push(format!("automatic kind chose a DFA for {} patterns / {:?}", pats.len(), sk));
+                    }
+                }
+                if ac.patterns_len() != pats.len() {
+                    bad.push(format!("patterns_len {} != {}", ac.patterns_len(), pats.len()));
+                }
+                if ac.match_kind() != mk_real(*mk) {
+                    bad.push("match_kind".into());
+                }
+                if ac.start_kind() != sk.real() {
+                    bad.push("start_kind".into());
+                }
+                if !pats.is_empty() {
+                    let mn = pats.iter().map(|p| p.len()).min().unwrap();
+                    let mx = pats.iter().map(|p| p.len()).max().unwrap();
+                    if ac.min_pattern_len() != mn || ac.max_pattern_len() != mx {
+                        bad.push(format!("min/max {} {} vs {} {}", ac.min_pattern_len(), ac.max_pattern_len(), mn, mx));
+                    }
+                }
+                // pattern ids are input positions: search each pattern as its own haystack
+                let anch = *sk == StartKindC::A;
+                for (i, p) in pats.iter().enumerate().step_by(1 + pats.len() / 40) {
+                    let inp = Input::new(p).anchored(if anch { Anchored::Yes } else { Anchored::No });
+                    match catch_unwind(AssertUnwindSafe(|| ac.try_find(inp))) {
+                        Ok(Ok(got)) => {
+                            let want = oracle::find(pats, ci, *mk, p, 0, p.len(), anch);
+                            if got.map(cv) != want {
+                                bad.push(format!("searching pattern {} in itself gives {:?}, expected {:?}", i, got.map(cv), want));
+                                break;
+                            }
+                        }
+                        _ => {
+                            bad.push(format!("searching pattern {} failed", i));
+                            break;
+                        }
+                    }
+                }
+                if !bad.is_empty() {
+                    rep.fail(Fail { key, what: format!("{}: {}", desc, bad.join("; ")), argv: vec!["meta".into()] });
+                }
+            }
+        }
+        // low-level builders agree on lengths
+        for cfg in crate::sem::cfg_set("low", Kind::LF, false, false).into_iter().step_by(3) {
+            if pats.len() > 300 {
+                break;
+            }
+            if let Ok(Ok(b)) = catch_unwind(AssertUnwindSafe(|| build(&cfg, pats))) {
+                crate::eng::with_low(&b, &mut |a| {
+                    rep.case(true);
+                    for (i, p) in pats.iter().enumerate() {
+                        if a.pattern_len(i) != p.len() {
+                            rep.fail(Fail { key: format!("meta:plen:{}:{}", show_pats(&pats[..pats.len().min(3)]), i), what: format!("pattern_len({}) = {} for {} [{}]", i, a.pattern_len(i), show_pats(&pats[..pats.len().min(3)]), cfg.encode()), argv: vec!["meta".into()] });
+                        }
+                    }
+                    if a.patterns_len() != pats.len() {
+                        rep.fail(Fail { key: format!("meta:npat:{}", show_pats(&pats[..pats.len().min(3)])), what: format!("patterns_len = {} [{}]", a.patterns_len(), cfg.encode()), argv: vec!["meta".into()] });
+                    }
+                });
+            } else {
+                rep.fail(Fail { key: format!("meta:lowbuild:{}", show_pats(&pats[..pats.len().min(3)])), what: format!("low-level build failed/panicked [{}]", cfg.encode()), argv: vec!["meta".into()] });
+            }
+        }
+    });
+    rep.sample("e.g. 256 one-byte patterns, DFA explicitly requested, start kind Both, byte classes off".into());
+    rep
+}
+
+// ------------------------------------------------------------------------------------------
+// C17 purity differential (the schedule quantifier is NOT decided by this; see DESIGN.md C17)
+// ------------------------------------------------------------------------------------------
+pub fn purity(args: &Args) -> Report {
+    let seed = args.num("seed", 0);
+    let thorough = args.thorough();
+    let rep = Report::new(
+        "purity",
+        "differential: the same searches on one searcher in shuffled orders, on clones, and from 8 threads sharing the searcher and its clones concurrently".into(),
+        "case = one search (find / find_iter / overlapping / stream) repeated under a different history or thread; must equal the first sequential result".into(),
+    );
+    let lists = family("abc", false, seed).lists;
+    let hays = gen::strings(b"abc", 0, 4);
+    let picks: Vec<&Vec<Vec<u8>>> = lists.iter().step_by(if thorough { 7 } else { 41 }).collect();
+    for pats in picks {
+        for mk in [Kind::Std, Kind::LF] {
+            for engine in [Engine::TopAuto, Engine::TopContig, Engine::TopNonContig] {
+                let cfg = Cfg { engine, sk: StartKindC::U, mk, ci: false, pre: true, dd: None, bc: true };
+                let ac = match build(&cfg, pats) {
+                    Ok(Built::Top(t)) => t,
+                    _ => continue,
+                };
+                let base: Vec<Vec<M>> = hays.iter().map(|h| ac.find_iter(h).map(cv).collect()).collect();
+                // reversed order on a clone
+                let c2 = ac.clone();
+                for (i, h) in hays.iter().enumerate().rev() {
+                    let got: Vec<M> = c2.find_iter(h).map(cv).collect();
+                    rep.case(!base[i].is_empty());
+                    if got != base[i] {
+                        rep.fail(Fail { key: format!("purity:order:{}", show_pats(pats)), what: format!("result depends on search order for {} on '{}'", show_pats(pats), show(h)), argv: vec!["purity".into()] });
+                    }
+                }
+                // concurrently
+                let bad = std::sync::atomic::AtomicUsize::new(0);
+                std::thread::scope(|s| {
+                    for t in 0..8 {
+                        let acr = &ac;
+                        let cl = ac.clone();
+                        let (base, hays, bad, rep) = (&base, &hays, &bad, &rep);
+                        s.spawn(move || {
+                            for k in 0..hays.len() {
+                                let i = (k * 7 + t * 13) % hays.len();
+                                let a = if t % 2 == 0 { acr } else { &cl };
+                                let got: Vec<M> = a.find_iter(&hays[i]).map(cv).collect();
+                                rep.case(!base[i].is_empty());
+                                if got != base[i] {
+                                    bad.fetch_add(1, std::sync::atomic::Ordering::Relaxed);
+                                }
+                            }
+                        });
+                    }
+                });
+                if bad.load(std::sync::atomic::Ordering::Relaxed) > 0 {
+                    rep.fail(Fail { key: format!("purity:threads:{}", show_pats(pats)), what: format!("concurrent result differs from sequential for {}", show_pats(pats)), argv: vec!["purity".into()] });
+                }
+            }
+        }
+    }
+    rep
+}
+
+// ------------------------------------------------------------------------------------------
+// C19 fail-link depth (hook H1) and per-byte work (hook counters)
+// ------------------------------------------------------------------------------------------
+pub fn faildepth(args: &Args) -> Report {
+    let thorough = args.thorough();
+    let seed = args.num("seed", 0);
+    let rep = Report::new(
+        "faildepth",
+        format!("pattern families small, abc, ci, wide (a^k b, nested suffixes, >127 transitions, random) x 3 match kinds x ci; hook H1: depth(fail(s)) < depth(s) for every non-start state of the noncontiguous NFA; hook counters: transitions <= span length and failure traversals <= transitions for every search of {} haystacks per list on both NFA kinds, zero failure traversals on DFAs", if thorough { 400 } else { 60 }),
+        "case = (automaton state) for the depth check, (search) for the counter check".into(),
+    );
+    let mut lists = wide_lists(thorough, seed);
+    lists.extend(family("small", thorough, seed).lists);
+    lists.extend(family("abc", false, seed).lists.into_iter().step_by(3));
+    lists.extend(family("ci", false, seed).lists.into_iter().step_by(3));
+    // adversarial: a^k b with long runs, deep failure chains
+    lists.push((1..40).map(|k| { let mut p = vec![b'a'; k]; p.push(b'b'); p }).collect());
+    lists.push(vec![vec![b'a'; 200], b"ab".to_vec()]);
+    par_for(&lists, |pats| {
+        let mut rng = Rng(pats.len() as u64 + seed as u64 * 977);
+        let mut alpha: Vec<u8> = pats.iter().flatten().cloned().collect();
+        alpha.sort();
+        alpha.dedup();
+        if alpha.is_empty() {
+            alpha.push(b'a');
+        }
+        for mk in [Kind::Std, Kind::LF, Kind::LL] {
+            for ci in [false, true] {
+                // H1 on the noncontiguous NFA
+                let mut nb = aho_corasick::nfa::noncontiguous::Builder::new();
+                nb.match_kind(mk_real(mk)).ascii_case_insensitive(ci);
+                let nfa = match nb.build(pats) {
+                    Ok(n) => n,
+                    Err(_) => continue,
+                };
+                let su = nfa.start_state(Anchored::No).unwrap();
+                let sa = nfa.start_state(Anchored::Yes).unwrap();
+                // trie depth by BFS over trie edges (anchored transitions never follow failure links)
+                let n = nfa.verif_states_len();
+                let mut depth = vec![usize::MAX; n];
+                let mut q = std::collections::VecDeque::new();
+                depth[su.as_usize()] = 0;
+                depth[sa.as_usize()] = 0;
+                q.push_back(su);
+                while let Some(s) = q.pop_front() {
+                    for b in 0..=255u8 {
+                        let t = nfa.next_state(Anchored::Yes, s, b);
+                        if t.as_usize() >= 2 && depth[t.as_usize()] == usize::MAX {
+                            depth[t.as_usize()] = depth[s.as_usize()] + 1;
+                            q.push_back(t);
+                        }
+                    }
+                }
+                for i in 2..n {
+                    let sid = aho_corasick::automaton::StateID::new(i).unwrap();
+                    if sid == su || sid == sa || depth[i] == usize::MAX {
+                        continue;
+                    }
+                    let f = nfa.verif_fail(sid);
+                    rep.case(true);
+                    // DEAD (0) as a failure target ends the walk at once; otherwise strictly shallower
+                    if f.as_usize() != 0 && !(depth[f.as_usize()] < depth[i]) {
+                        rep.fail(Fail { key: format!("faildepth:{}:{}", mk.name(), show_pats(&pats[..pats.len().min(4)])), what: format!("fail link of state {} (trie depth {}) points to state {} (trie depth {}) for {}", i, depth[i], f.as_usize(), depth[f.as_usize()], show_pats(&pats[..pats.len().min(4)])), argv: vec!["faildepth".into()] });
+                    }
+                    if f.as_usize() == 1 {
+                        rep.fail(Fail { key: format!("faildepth:FAIL:{}", show_pats(&pats[..pats.len().min(4)])), what: format!("fail link of state {} points to the FAIL sentinel", i), argv: vec!["faildepth".into()] });
+                    }
+                }
+                // counters on every engine
+                let cnfa = aho_corasick::nfa::contiguous::Builder::new().match_kind(mk_real(mk)).ascii_case_insensitive(ci).build(pats);
+                let dfa = if pats.len() <= 60 { aho_corasick::dfa::Builder::new().match_kind(mk_real(mk)).ascii_case_insensitive(ci).start_kind(StartKind::Both).build(pats).ok() } else { None };
+                for hi in 0..(if thorough { 400 } else { 60 }) {
+                    let l = if hi % 5 == 0 { 64 + rng.below(200) } else { rng.below(24) };
+                    let h = if hi % 7 == 0 { vec![alpha[0]; l] } else { rng.bytes(&alpha, l) };
+                    for anch in [false, true] {
+                        let inp = Input::new(&h).anchored(if anch { Anchored::Yes } else { Anchored::No });
+                        for which in 0..3 {
+                            aho_corasick::verif::reset_counters();
+                            let r = match which {
+                                0 => nfa.try_find(&inp).map(|_| ()),
+                                1 => match &cnfa { Ok(c) => c.try_find(&inp).map(|_| ()), Err(_) => continue },
+                                _ => match &dfa { Some(d) => d.try_find(&inp).map(|_| ()), None => continue },
+                            };
+                            if r.is_err() {
+                                continue;
+                            }
+                            let (t, f) = aho_corasick::verif::counters();
+                            rep.case(true);
+                            if t > h.len() as u64 || f > t || (which == 2 && f != 0) {
+                                rep.fail(Fail {
+                                    key: format!("work:{}:{}:{}", which, mk.name(), show_pats(&pats[..pats.len().min(4)])),
+                                    what: format!("search of {} bytes did {} transitions and {} failure traversals (engine {}) for {} on '{}'", h.len(), t, f, ["noncontiguous", "contiguous", "dfa"][which], show_pats(&pats[..pats.len().min(4)]), show(&h[..h.len().min(40)])),
+                                    argv: vec!["faildepth".into()],
+                                });
+                            }
+                            // overlapping stepping: total work over the whole history
+                            if mk == Kind::Std && which < 2 {
+                                aho_corasick::verif::reset_counters();
+                                let mut st = OverlappingState::start();
+                                let mut n = 0;
+                                loop {
+                                    let r = if which == 0 { nfa.try_find_overlapping(&inp, &mut st) } else { cnfa.as_ref().unwrap().try_find_overlapping(&inp, &mut st) };
+                                    if r.is_err() || st.get_match().is_none() || n > 100000 {
+                                        break;
+                                    }
+                                    n += 1;
+                                }
+                                let (t, f) = aho_corasick::verif::counters();
+                                rep.case(true);
+                                if t > h.len() as u64 + 1 || f > t {
+                                    rep.fail(Fail { key: format!("work:ov:{}:{}", which, show_pats(&pats[..pats.len().min(4)])), what: format!("overlapping search of {} bytes did {} transitions, {} failure traversals", h.len(), t, f), argv: vec!["faildepth".into()] });
+                                }
+                            }
+                        }
+                    }
+                }
+                if rep.full() {
+                    return;
+                }
+            }
+        }
+    });
+    rep
+}
